@@ -48,7 +48,7 @@ func (d *fakeDB) GetIPInfo(ip net.IP) (ipinfo.IPInfo, error) {
 
 type C20Class struct {
 	Via  string `json:"via"`  // addr | ip
-	Form string `json:"form"` // tcp | udp | nil | noport | garbage | zoned | hostname
+	Form string `json:"form"` // tcp | udp | nil | noport | garbage | zoned | hostname | tcp-nilip | udp-nilip | tcp-emptyip | udp-badlen | tcp-badlen
 	IP   string `json:"ip"`
 	DB   string `json:"db"` // disabled | hit | empty | error
 	CC   string `json:"cc"`
@@ -94,7 +94,7 @@ func genC20Class(t *rapid.T) C20Class {
 			"10.0.0.1", "192.168.1.1", "100.64.0.1", "fd00::1", "8.8.8.8", "2001:4860:4860::8888", "::ffff:127.0.0.1", "::ffff:8.8.8.8", "::ffff:224.0.0.1"}).Draw(t, "ip")
 	}
 	if c.Via == "addr" {
-		c.Form = rapid.SampledFrom([]string{"tcp", "tcp", "udp", "nil", "noport", "garbage", "zoned", "hostname"}).Draw(t, "form")
+		c.Form = rapid.SampledFrom([]string{"tcp", "tcp", "udp", "nil", "noport", "garbage", "zoned", "hostname", "tcp-nilip", "udp-nilip", "tcp-emptyip", "udp-badlen", "tcp-badlen"}).Draw(t, "form")
 	} else {
 		c.Form = rapid.SampledFrom([]string{"ip", "ip", "ip", "nil"}).Draw(t, "form")
 	}
@@ -137,6 +137,16 @@ func runC20Class(c C20Class, info *kit.Info) *kit.Finding {
 			addr = &net.UDPAddr{IP: ipBytes, Port: 51234}
 		case "nil":
 			parsable = false
+		case "tcp-nilip": // typed addresses whose IP field is not an IP address: they print as ":51234" or "?0102..:51234"
+			addr, parsable = &net.TCPAddr{Port: 51234}, false
+		case "udp-nilip":
+			addr, parsable = &net.UDPAddr{Port: 51234}, false
+		case "tcp-emptyip":
+			addr, parsable = &net.TCPAddr{IP: net.IP{}, Port: 51234}, false
+		case "udp-badlen":
+			addr, parsable = &net.UDPAddr{IP: net.IP(ipBytes[:3]), Port: 51234}, false
+		case "tcp-badlen":
+			addr, parsable = &net.TCPAddr{IP: append(net.IP(nil), append(ipBytes, 7)...), Port: 51234}, false
 		case "noport":
 			addr, parsable = stringAddr{a.String()}, false
 		case "garbage":
